@@ -42,6 +42,13 @@ type caseFn struct {
 
 func newCaseFn(c *Ctx, f *Fn) *caseFn {
 	cf := &caseFn{c: c, f: f, g: c.graph(f), info: f.Info(), defs: map[types.Object]string{}, par: map[types.Object]int{}}
+	if f.Lit == nil && f.Decl != nil && f.Decl.Recv != nil {
+		for _, fl := range f.Decl.Recv.List {
+			for _, n := range fl.Names {
+				cf.par[cf.info.Defs[n]] = -1
+			}
+		}
+	}
 	i := 0
 	if f.Type.Params != nil {
 		for _, fl := range f.Type.Params.List {
@@ -137,6 +144,9 @@ func (cf *caseFn) canon(e ast.Expr) string {
 			o = cf.info.Defs[x]
 		}
 		if i, ok := cf.par[o]; ok {
+			if i < 0 {
+				return "recv"
+			}
 			return fmt.Sprintf("p%d", i)
 		}
 		if d, ok := cf.defs[o]; ok && d != "" {
